@@ -12,7 +12,10 @@ Domain
     generic through `typing.Generic[T]` or an own `__class_getitem__`); classes defined inside classes, used as bases
     (`class B(A.Inner)`, also through imports of the host) and deriving from siblings / outer classes; external bases
     (builtins, undefined names, aliases into a package that is not loaded) sprinkled in; now and then back edges that
-    make the graph cyclic.
+    make the graph cyclic. Half of the package cases carry a *history* played on one loader / modules collection: the
+    package with the subclasses is loaded and every class queried while the bases' package is not loaded yet, then that
+    package is loaded too ("late"); or everything is loaded and queried and one class is then replaced in its module
+    through `set_member` by a class with other bases and members ("replace"). The answers for the final tree are judged.
   * every class defines a pseudo-random subset of 4 names as function / attribute / member class / property /
     staticmethod / classmethod, possibly `__init__` (with or without a `self.<name> = ...` instance attribute) and
     `__class_getitem__`.
@@ -42,7 +45,8 @@ RULE = (
     "one-module hierarchies: exhaustive enumeration of all ordered base tuples (<=3 distinct bases among earlier classes) for exactly "
     "N classes (N=5 quick: 6560, N=6 thorough: 564160), consistent or not; cyclic graphs: all 4096 graphs of 3 classes with bases among "
     "all 3; multi-module packages: Hypothesis-constructed (2-7 classes, 1-3 modules, 11 import forms incl. 1-4 re-export hops, subscripted bases, "
-    "classes defined in classes and used as bases, external bases, occasional back edges); member placement (4 names x {absent, function, "
+    "classes defined in classes and used as bases, external bases, occasional back edges; half of them with a history on one loader: bases' package loaded after the "
+    "subclasses were queried, or a class replaced through set_member between two rounds of queries); member placement (4 names x {absent, function, "
     "attribute, member class, property, staticmethod, classmethod}, __init__ with/without instance attribute) derived from the seed. Every class of "
     "every hierarchy is judged. non-trivial = some class has >=2 bases; distinct = distinct case model (bases, members, nesting, module layout, import forms)"
 )
@@ -67,6 +71,10 @@ ASSUMPTIONS = [
     "and attaches nested classes to their host afterwards - the real import of the generated files (same text Griffe reads) must agree, else harness error",
     "static analysis only (griffe.visit / griffe.load(allow_inspection=False)); wildcard import forms only with resolve_aliases=True (the loader expands them only then) "
     "and never in packages with cyclic imports",
+    "histories: the answer for the tree as it is when asked must equal CPython's view of that tree, whatever was loaded or asked before (docs: inherited members 'are "
+    "re-computed everytime they are accessed'; base classes 'will be resolved' on every access); the replacement class of a 'replace' history is built with "
+    "griffe.Class(name, bases=[<paths>]) + set_member, the documented producer API; its expectation is CPython's view of the hierarchy with that class replaced; "
+    "no wildcard form in 'late' histories",
     "import forms only reach classes defined in the named module (re-export chains use renamed from-imports); module and member names never collide",
 ]
 EXHAUSTIVE = True
@@ -101,27 +109,67 @@ def _write_pkg(files: dict[str, str]) -> Path:
     return root
 
 
-def _load_pkg(case, root: Path, files):
-    import griffe
-
-    pkg = call(
-        "total",
-        griffe.load,
-        H.PKG,
-        search_paths=[str(root)],
-        resolve_aliases=bool(case["resolve"]),
-        allow_inspection=False,
-        try_relative_path=False,
-        what="griffe.load of " + _show_files(files),
-    )
+def _find_classes(case, collection) -> list:
     host = H.hosts(case)
     out = []
     for i, m in enumerate(case["mods"]):
-        obj = pkg.members.get(f"m{m}")
-        for part in ([f"C{i}"] if host[i] is None else [f"C{host[i]}", f"C{i}"]):
+        obj = collection.members.get(H.pkg_of(case, m))
+        for part in ([f"m{m}", f"C{i}"] if host[i] is None else [f"m{m}", f"C{host[i]}", f"C{i}"]):
             obj = obj.members.get(part) if obj is not None and not getattr(obj, "is_alias", False) else None
         out.append(obj)
     return out
+
+
+def _query(g, path: str) -> None:
+    """What a consumer does with a class: ask for its MRO and inherited members (ValueError = uncomputable)."""
+    try:
+        call("history", g.mro, what=f"{path}.mro() (earlier query of the history)", allowed=(ValueError,))
+    except ValueError:
+        pass
+    call("history", lambda: dict(g.inherited_members), what=f"{path}.inherited_members (earlier query of the history)")
+
+
+def _new_class(case, hist):
+    """The replacement class of a "replace" history: bases given as paths, plain members."""
+    import griffe
+
+    j = hist["target"]
+    new = griffe.Class(f"C{j}", bases=[H.class_path(case, b) for b in hist["bases"]])
+    for name, k in zip(H.NAMES, hist["members"]):
+        if k == 1:
+            new.set_member(name, griffe.Function(name))
+        elif k == 2:
+            new.set_member(name, griffe.Attribute(name, value=f'"C{j}"'))
+        elif k == 3:
+            new.set_member(name, griffe.Class(name))
+    return new
+
+
+def _load_pkg(case, root: Path, files):
+    """Play the case's history on one loader; returns (classes judged before the last step or None, classes of the final tree)."""
+    import griffe
+
+    where = _show_files(files)
+    loader = griffe.GriffeLoader(search_paths=[str(root)], allow_inspection=False)
+    resolve = bool(case["resolve"])
+    hist = case.get("history") or {}
+
+    def load(name: str) -> None:
+        call("total", loader.load, name, try_relative_path=False, what=f"GriffeLoader.load({name!r}) of " + where)
+        if resolve:
+            call("total", loader.resolve_aliases, what=f"resolve_aliases after loading {name!r} of " + where)
+
+    load(H.PKG)
+    before = None
+    if hist.get("type") == "late":
+        # the subclasses' package is there, the bases' package is not: every class is queried, then the rest is loaded
+        for i, g in enumerate(_find_classes(case, loader.modules_collection)):
+            if g is not None and H.pkg_of(case, case["mods"][i]) == H.PKG:
+                _query(g, H.class_path(case, i))
+        load(H.LIB)
+    elif hist.get("type") == "replace":
+        before = _find_classes(case, loader.modules_collection)
+    return before, loader
 
 
 def _show_files(files) -> str:
@@ -145,20 +193,21 @@ def _import_pkg(case, root: Path) -> list[list[str]]:
         out = []
         host = H.hosts(case)
         for i, m in enumerate(case["mods"]):
-            mod = importlib.import_module(f"{H.PKG}.m{m}")
+            mod = importlib.import_module(f"{H.pkg_of(case, m)}.m{m}")
             cls = getattr(mod, f"C{i}") if host[i] is None else getattr(getattr(mod, f"C{host[i]}"), f"C{i}")
-            out.append([f"{c.__module__}.{c.__qualname__}" for c in cls.__mro__[1:] if c.__module__.startswith(H.PKG + ".")])
+            out.append([f"{c.__module__}.{c.__qualname__}" for c in cls.__mro__[1:] if c.__module__.split(".")[0] in (H.PKG, H.LIB)])
         return out
     finally:
         for k in injected:
             delattr(builtins, k)
         sys.path.remove(str(root))
         for name in set(sys.modules) - before:
-            if name == H.PKG or name.startswith(H.PKG + "."):
+            if name.split(".")[0] in (H.PKG, H.LIB):
                 del sys.modules[name]
         sys.modules.pop(H.NOTLOADED, None)
         sys.path_importer_cache.pop(str(root), None)
         sys.path_importer_cache.pop(str(root / H.PKG), None)
+        sys.path_importer_cache.pop(str(root / H.LIB), None)
         importlib.invalidate_caches()
 
 
@@ -325,10 +374,10 @@ def _known_inherited_instance_attribute(case, fail: Fail) -> bool:
     """Known finding: the only thing wrong is that an instance attribute assigned in a base class's `__init__` is listed
     as inherited member (CPython's lookup through the MRO finds nothing) or wins over the class-level definition CPython
     finds farther along the MRO. Verified on the model: the named class really has such an instance attribute first."""
-    if fail.bucket not in ("inherited-set/extra-instance-attribute", "nearest-wins/instance-attribute-shadows-class-attribute"):
+    if fail.bucket.split("[")[0] not in ("inherited-set/extra-instance-attribute", "nearest-wins/instance-attribute-shadows-class-attribute"):
         return False
     d = fail.detail or {}
-    exp = H.oracle(case)[d["class"]]
+    exp = H.oracle(H.final_case(case) if d.get("final") else case)[d["class"]]
     return exp["status"] == "ok" and d["name"] in exp["ia"]
 
 
@@ -346,42 +395,70 @@ def _expect_of(case):
 
 
 def evaluate(case):
-    """-> (fails, expectation)."""
+    """-> (fails, expectation of the final tree)."""
     expect = H.oracle(case)
-    _LAST[0], _LAST[1] = case, expect
     kind = case["kind"]
     fails: list[Fail] = []
     if kind in ("one", "cyc"):
         gclasses, code = _load_one(case)
-        where = code
-        real = None
-    elif kind == "pkg":
-        files = H.render_pkg(case)
-        where = _show_files(files)
-        root = _write_pkg(files)
-        try:
-            real = None
-            importable = _importable(case, expect)
-            if importable:
-                try:
-                    real = _import_pkg(case, root)
-                except Exception as exc:  # noqa: BLE001
-                    raise HarnessError(f"CPython could not import the generated package: {exc!r}\n{where}") from exc
-            gclasses = _load_pkg(case, root, files)
-        finally:
-            shutil.rmtree(root, ignore_errors=True)
-    else:
+        _LAST[0], _LAST[1] = case, expect
+        for i, exp in enumerate(expect):
+            if exp["status"] != "skip":
+                fails.extend(judge_class(case, i, exp, gclasses[i], code))
+        return fails, expect
+    if kind != "pkg":
         raise HarnessError(f"unknown case kind {kind!r}")
+    files = H.render_pkg(case)
+    where = _show_files(files)
+    hist = case.get("history") or {}
+    orig, expect0 = case, expect
+    root = _write_pkg(files)
+    try:
+        real = None
+        if _importable(case, expect):
+            try:
+                real = _import_pkg(case, root)
+            except Exception as exc:  # noqa: BLE001
+                raise HarnessError(f"CPython could not import the generated package: {exc!r}\n{where}") from exc
+        before, loader = _load_pkg(case, root, files)
+    finally:
+        shutil.rmtree(root, ignore_errors=True)
+    if real is not None:
+        # the really imported package is the reference; the abstract oracle must agree with it (rendering self-check)
+        for i, exp in enumerate(expect):
+            if exp["status"] == "ok" and real[i] != [H.class_path(case, j) for j in exp["mro"]]:
+                raise HarnessError(f"oracle mismatch: imported MRO {real[i]} vs abstract {exp['mro']}\n{where}")
+    if hist.get("type") == "late":
+        where = f"[history: {H.PKG} loaded and every class queried, then {H.LIB} loaded into the same collection]\n" + where
+    if hist.get("type") == "replace":
+        # first state: the tree as loaded (an ordinary case); every class is judged = queried
+        for i, exp in enumerate(expect):
+            if exp["status"] != "skip":
+                fails.extend(judge_class(case, i, exp, before[i], where))
+        j = hist["target"]
+        new = _new_class(case, hist)
+        parent = before[j].parent if before[j] is not None else None
+        if parent is None:
+            _LAST[0], _LAST[1] = orig, expect0
+            return fails, expect0
+        call("history", parent.set_member, f"C{j}", new, what=f"{parent.path}.set_member('C{j}', <new class>)")
+        case = H.final_case(case)
+        expect = H.oracle(case)
+        where = (
+            f"[history: everything loaded and queried, then {H.class_path(case, j)} replaced through set_member by a class with bases "
+            f"{[H.class_path(case, b) for b in hist['bases']]} and members {dict((n, H.KIND_NAME[k]) for n, k in zip(H.NAMES, hist['members']) if k)}]\n" + where
+        )
+    gclasses = _find_classes(case, loader.modules_collection)
     for i, exp in enumerate(expect):
         if exp["status"] == "skip":
             continue
-        if real is not None and exp["status"] == "ok":
-            # the really imported package is the reference; the abstract oracle must agree with it (rendering self-check)
-            want = [H.class_path(case, j) for j in exp["mro"]]
-            if real[i] != want:
-                raise HarnessError(f"oracle mismatch: imported MRO {real[i]} vs abstract {want}\n{where}")
-        fails.extend(judge_class(case, i, exp, gclasses[i], where))
-    return fails, expect
+        for f in judge_class(case, i, exp, gclasses[i], where):
+            if hist:
+                # same clause, own bucket: the answer is only wrong because of what happened before
+                f = Fail(f.clause, f"{f.kind}[after-{hist['type']}]", f.message, {**(f.detail or {}), "final": True})
+            fails.append(f)
+    _LAST[0], _LAST[1] = orig, expect0
+    return fails, expect0
 
 
 def check_case(case) -> list[Fail]:
@@ -399,6 +476,19 @@ def describe(case, expect):
         classes.add(f"pkg:modules={max(case['mods']) + 1}")
         classes.add("pkg:really-imported" if _importable(case, expect) else "pkg:abstract-oracle-only")
         classes.add(f"pkg:resolve_aliases={bool(case['resolve'])}")
+        hist = case.get("history")
+        if hist:
+            classes.add(f"pkg:history-{hist['type']}")
+            if hist["type"] == "late":
+                s = hist["split"]
+                if any(isinstance(b, int) and case["mods"][b] < s <= case["mods"][i] for i, bs in enumerate(case["bases"]) for b in bs):
+                    classes.add("pkg:history-late:class-derives-from-late-package")
+            else:
+                j = hist["target"]
+                if any(j in anc for anc in H.ancestors(case["bases"])):
+                    classes.add("pkg:history-replace:target-has-descendants")
+                if sorted(hist["bases"]) != sorted(H.int_bases(case["bases"][j])) or list(hist["bases"]) != H.int_bases(case["bases"][j]):
+                    classes.add("pkg:history-replace:bases-change")
     nontrivial = "multi-base" in feats
     return nontrivial, sorted(classes)
 
